@@ -24,6 +24,11 @@
 #undef shared_timed_mutex
 #undef condition_variable_any
 #undef once_flag
+#undef future
+#undef shared_future
+#undef promise
+#undef packaged_task
+#undef async
 #undef call_once
 #undef yield
 #undef sleep_for
